@@ -827,6 +827,66 @@ def r04_15(ctx, rep):
     no_stale_loop_variables(ctx, rep, "R04.15", PARSER, "the parser")
 
 
+@SPEC.rule(
+    "R04.16",
+    "every import clause is attached to the class that declares it: on every path through ASTListener.exitImport_clause the clause (or each of "
+    "its components) is stored in the class's import table or appended to the entry that is already there — the shared `*` entry is assigned "
+    "only where no `*` entry exists yet and added to otherwise (a second `import Q.*;` must not be dropped, nor replace the first)",
+)
+def r04_16(ctx, rep):
+    from ..cfg import assume_truth, iteration_skips, must_facts
+    R = "R04.16"
+    fn = ctx.func(PARSER, L + ".exitImport_clause", R)
+    site = PARSER + ":" + L + ".exitImport_clause"
+    cfg = CFG(fn, R)
+
+    def imports_store(x):
+        return x.kind == "stmt" and isinstance(x.ast, ast.Assign) and any(
+            isinstance(t, ast.Subscript) and (dotted(t.value) or "").endswith(".imports") for t in x.ast.targets)
+
+    def imports_add(x):
+        return x.kind == "stmt" and any(isinstance(c.func, ast.Attribute) and c.func.attr in ("append", "extend") and ".imports[" in norm(c.func.value)
+                                        for c in calls(x.ast)) or (x.kind == "stmt" and isinstance(x.ast, ast.AugAssign) and ".imports[" in norm(x.ast.target))
+
+    comp_loops = [lp for lp in walk_local(fn) if isinstance(lp, ast.For) and norm(lp.iter).endswith(".components")]
+    stores = [x for x in cfg.nodes if x.ast is not None and imports_store(x)]
+    adds = [x for x in cfg.nodes if x.ast is not None and imports_add(x)]
+    if len(stores) < 2:
+        raise MechanismMissing(R, "stores into the class's import table not found in exitImport_clause")
+    rep.ob(R, site, "a further unqualified import is added to the shared `*` entry", bool(adds),
+           "nothing in exitImport_clause appends to an existing entry of the import table: of two `import P.*; import Q.*;` only one survives")
+    heads = {x.id for x in cfg.nodes if x.kind == "iter" and any(x.ast is lp for lp in comp_loops)}
+    w = cfg.must_pass(cfg.entry, cfg.exit, {x.id for x in stores} | {x.id for x in adds} | heads)
+    rep.ob(R, site, "every import clause reaches the class's import table", w is None,
+           "exitImport_clause can end without the clause having been stored in, or added to, self.class_node.imports: the import is lost",
+           path=cfg.describe(w) if w else "")
+    for lp in comp_loops:
+        w = iteration_skips(cfg, lp, imports_store)
+        rep.ob(R, site, "every imported name of a clause is stored", w is None, "an iteration over the clause's components can end without storing the name",
+               path=cfg.describe(w) if w else "")
+    # the shared entry: assigned only where it is known to be absent
+    star = [x for x in stores if any(isinstance(t, ast.Subscript) and const_str(t.slice) == "*" for t in x.ast.targets)]
+    if not star:
+        raise MechanismMissing(R, "the store of the shared `*` entry was not found")
+    recv = norm([t for t in star[0].ast.targets if isinstance(t, ast.Subscript)][0].value)
+
+    def transfer(node, facts):
+        if node.kind == "assume":
+            t = assume_truth(node, "'*' in %s" % recv)
+            if t is False:
+                return facts | {"absent"}
+            if t is True:
+                return facts - {"absent"}
+        if node.ast is not None and imports_store(node):
+            return facts - {"absent"}
+        return facts
+
+    IN = must_facts(cfg, transfer)
+    for x in star:
+        rep.ob(R, site, "the `*` entry is assigned only when there is none yet", "absent" in (IN.get(x.id) or frozenset()),
+               "`%s` can run when the class already has a `*` entry: the packages of the earlier unqualified imports are replaced" % norm(x.ast)[:70])
+
+
 # -- seeded variants ---------------------------------------------------------
 from ._mut import delete_stmt_where, replace_in_func  # noqa: E402
 
